@@ -2,9 +2,19 @@
     Only statements live here; each is closed by [exact] of a lemma proved elsewhere. *)
 From Coq Require Import List ZArith Sorted.
 From Coq Require String.
-From V Require Import Gen.Params PktProt.PktNum PktProt.PktNumProofs PktProt.KeyPhase PktProt.KeyPhaseProofs PktProt.KeyDerive PktProt.KeyDeriveProofs PktProt.KeyPhaseRun PktProt.KeyPhaseWindow PktProt.KeyPhaseSys PktProt.KeyPhaseSysProofs PktProt.KeyPhaseExamples PktProt.Sha256 PktProt.InitialKeys PktProt.InitialKeysProofs PktProt.Aes PktProt.InitialProtect PktProt.InitialProtectExamples PktProt.Retry PktProt.RetryProofs PktProt.AesProofs PktProt.ChaCha PktProt.ChaChaExamples Lib.Hex PktProt.Protect PktProt.ProtectProofs PktProt.ProtectExamples PktProt.ProtectPack PktProt.ProtectPackProofs Wire.Varint Wire.VarintProofs Wire.Headers Wire.HeadersProofs PktProt.ProtectLong PktProt.ProtectLongProofs.
+From V Require Import Gen.Params PktProt.PktNum PktProt.PktNumProofs PktProt.KeyPhase PktProt.KeyPhaseProofs PktProt.KeyDerive PktProt.KeyDeriveProofs PktProt.KeyPhaseRun PktProt.KeyPhaseWindow PktProt.KeyPhaseSys PktProt.KeyPhaseSysProofs PktProt.KeyPhaseSysPn PktProt.KeyPhaseSysPnProofs PktProt.KeyPhaseExamples PktProt.Sha256 PktProt.InitialKeys PktProt.InitialKeysProofs PktProt.Aes PktProt.InitialProtect PktProt.InitialProtectExamples PktProt.Retry PktProt.RetryProofs PktProt.AesProofs PktProt.ChaCha PktProt.ChaChaExamples PktProt.TamperExamples Lib.Hex PktProt.Protect PktProt.ProtectProofs PktProt.ProtectExamples PktProt.ProtectPack PktProt.ProtectPackProofs Wire.Varint Wire.VarintProofs Wire.Headers Wire.HeadersProofs PktProt.ProtectLong PktProt.ProtectLongProofs.
 Import ListNotations.
 Open Scope Z_scope.
+
+(** Scope notes.  (i) The premise "length chosen by PacketNumberLengthForHeader" holds for every
+    packet of the plain stack; a uQUIC spec-driven client takes the packet number LENGTH of its
+    Initial packets from the spec (uSentPacketHandler.PeekPacketNumber; 1 byte is possible) —
+    that exception is property C10's (C10_first_pn_decodable_iff ...), not covered here.
+    (ii) C05_initial_keys_rfc and C05_key_update_derivation_rfc are proved by reflexivity: they
+    check that the constants and labels read from the code are the RFC's and that the model
+    has the RFC's shape; that the CODE computes this function is the job of the initialkeys /
+    keyphase correspondence cases (Gallina SHA-256/HKDF vs. NewInitialAEAD, the harness' own
+    HKDF vs. getNextTrafficSecret) and of the RFC Appendix A vectors. *)
 
 (** (g) The truncated packet number always decodes to the true one given what the sender
     knows to be acknowledged: the sender picks the length with PacketNumberLengthForHeader
@@ -16,6 +26,34 @@ Theorem C05_pn_decode_exact : forall pn largestAcked largest,
   2 <= len <= 4 /\ decodePN len largest (truncatePN len pn) = pn.
 Proof. intros; split; [apply lenForHeader_ge2 | apply decode_sender; assumption]. Qed.
 Print Assumptions C05_pn_decode_exact.
+
+(** (g) within the permitted reordering window: the packet may be OVERTAKEN.  The length the
+    sender chose from its largest acknowledged number tolerates a receiver that has already
+    opened packets up to [reorder_tolerance len = 2^(8 len - 1) - 2] numbers ahead of this one
+    (2 bytes: 32766, 3 bytes: 8388606, 4 bytes: 2147483646); one further and the decoder
+    returns a different number (second theorem; for pn >= 2^32 so that no clamp hides it). *)
+Theorem C05_pn_decode_reordered : forall pn largestAcked largest,
+  0 <= pn < 2 ^ 62 -> -1 <= largestAcked -> pn - largestAcked <= 2 ^ 31 ->
+  largestAcked <= largest <= pn + reorder_tolerance (lenForHeader pn largestAcked) ->
+  decodePN (lenForHeader pn largestAcked) largest (truncatePN (lenForHeader pn largestAcked) pn) = pn.
+Proof. exact decode_sender_reordered. Qed.
+Print Assumptions C05_pn_decode_reordered.
+
+Theorem C05_pn_reorder_tolerance_exact : forall pn largestAcked,
+  0 <= pn < 2 ^ 62 - 2 ^ 33 -> -1 <= largestAcked -> 2 ^ 32 <= pn ->
+  decodePN (lenForHeader pn largestAcked) (pn + reorder_tolerance (lenForHeader pn largestAcked) + 1)
+           (truncatePN (lenForHeader pn largestAcked) pn) <> pn.
+Proof. exact decode_beyond_tolerance. Qed.
+Print Assumptions C05_pn_reorder_tolerance_exact.
+
+(** the auditor's numbers: pn 70000, largest acknowledged 69990, 2 bytes: fine up to pn + 32766 *)
+Example C05_pn_reorder_example :
+  lenForHeader 70000 69990 = 2 /\ reorder_tolerance 2 = 32766 /\
+  decodePN 2 (70000 + 1000) (truncatePN 2 70000) = 70000 /\
+  decodePN 2 (70000 + 32766) (truncatePN 2 70000) = 70000 /\
+  decodePN 2 (70000 + 32767) (truncatePN 2 70000) = 135536.
+Proof. vm_compute. repeat split; reflexivity. Qed.
+Print Assumptions C05_pn_reorder_example.
 
 (** General window form (RFC 9000 A.3) for every length 1..4. *)
 Theorem C05_pn_decode_window : forall len largest pn,
@@ -161,7 +199,7 @@ Theorem C05_pack_unpack :
     (forall pn kp ad p, length (aead_seal pn kp ad p) = (length p + 16)%nat) ->
     forall (long : bool) (tcode kp : Z) (mid : list Z) (pn la largest : Z) (ack frames : list Z) (extra : nat),
       (if long then 0 <= tcode <= 3 else kp = 0 \/ kp = 1) ->
-      0 <= pn < 2 ^ 62 -> -1 <= la -> la <= largest <= pn -> pn - la <= 2 ^ 31 ->
+      0 <= pn < 2 ^ 62 -> -1 <= la -> la <= largest <= pn + reorder_tolerance (lenForHeader pn la) -> pn - la <= 2 ^ 31 ->
       ack ++ frames <> [] ->
       let pnLen := lenForHeader pn la in
       let padding := pad_len (Z.to_nat pnLen) (length ack + length frames) extra in
@@ -194,7 +232,7 @@ Theorem C05_long_datagram_roundtrip :
     forall (ty v : Z) (src dst tok : list Z) (pn la largest : Z) (ack frames : list Z) (extra : nat) (rest : list Z),
       valid_version v -> pn_type ty ->
       zlen dst <= W_MaxConnIDLen -> zlen src <= W_MaxConnIDLen -> zlen tok <= maxVarInt8 ->
-      0 <= pn < 2 ^ 62 -> -1 <= la -> la <= largest <= pn -> pn - la <= 2 ^ 31 ->
+      0 <= pn < 2 ^ 62 -> -1 <= la -> la <= largest <= pn + reorder_tolerance (lenForHeader pn la) -> pn - la <= 2 ^ 31 ->
       ack ++ frames <> [] ->
       let pnLen := lenForHeader pn la in
       let payload := packet_payload ack (pad_len (Z.to_nat pnLen) (length ack + length frames) extra) frames in
@@ -301,6 +339,50 @@ Example C05_keyphase_histories_nonvacuous :
              p_gen p = keyPhase (ep (sd sys_example false)) + 1).
 Proof. exact (conj sym_open_seal (conj sym_open_wrong_key sys_example_ok)). Qed.
 Print Assumptions C05_keyphase_histories_nonvacuous.
+
+(** (g) composed with (c): the packet number ON THE WIRE in the two-endpoint system.  Every
+    packet is sent with the length PacketNumberLengthForHeader chooses from the sender's largest
+    acknowledged number at that moment ([las], a ghost log) and carries the truncated number;
+    the receiver calls updatableAEAD.DecodePacketNumber against its highestRcvdPN.  In every
+    reachable state (every interleaving of KeyPhase(), Seal, deliveries in any order and any
+    number of times, ACKs, confirmations), for every packet in flight with fewer than 2^31
+    numbers outstanding at its sender: what its sender knew to be acknowledged is at most the
+    receiver's highestRcvdPN (the sender-side guarantee is a THEOREM here, not a premise), so
+    as long as the receiver has not run ahead of the packet by more than the tolerance of its
+    length, DecodePacketNumber returns the packet's number, and Open on the decoded number
+    gives the plaintext inside the key window of C05_keyphase_histories. *)
+Theorem C05_pn_decode_in_histories :
+  forall (ctext ptext adata : Type)
+         (aead_seal : key -> Z -> adata -> ptext -> ctext)
+         (aead_open : key -> Z -> adata -> ctext -> option ptext),
+    (forall k n ad p, aead_open k n ad (aead_seal k n ad p) = Some p) ->
+    (forall k k' n ad p, k <> k' -> aead_open k n ad (aead_seal k' n ad p) = None) ->
+    forall cfg lim n0 ops, (forall x, 0 <= n0 x) ->
+      let sl := srun2 ctext ptext adata aead_seal aead_open cfg (sinit ptext adata lim n0, []) ops in
+      let s := fst sl in
+      let las := snd sl in
+      forall i p la, nth_error (sent s) i = Some p -> nth_error las i = Some la ->
+        let R := ep (sd s (negb (p_from p))) in
+        let len := wire_len ptext adata p la in
+        p_pn p < 2 ^ 62 -> p_pn p - la <= 2 ^ 31 ->
+        highestRcvdPN R <= p_pn p + reorder_tolerance len ->
+        -1 <= la <= highestRcvdPN R /\
+        2 <= len <= 4 /\
+        ua_decode_pn R (wire_pn ptext adata p la) len = p_pn p /\
+        (forall now pto3,
+           let r := keyPhase R in
+           (p_gen p = r \/ p_gen p = r + 1 \/ (p_gen p = r - 1 /\ prevRcvAEAD R <> None /\ dropped_now R now = false)) ->
+           fst (ua_open ctext ptext adata aead_open R now pto3 (ua_decode_pn R (wire_pn ptext adata p la) len)
+                        (p_gen p mod 2) (p_ad p) (p_ct ctext ptext adata aead_seal p)) = OpenOK (p_pt p)).
+Proof. exact pn_in_system. Qed.
+Print Assumptions C05_pn_decode_in_histories.
+
+Example C05_pn_decode_in_histories_nonvacuous :
+  exists p, nth_error (sent (fst sys_example2)) 1 = Some p /\ nth_error (snd sys_example2) 1 = Some (-1) /\
+    p_pn p < 2 ^ 62 /\ p_pn p - (-1) <= 2 ^ 31 /\
+    highestRcvdPN (ep (sd (fst sys_example2) (negb (p_from p)))) <= p_pn p + reorder_tolerance (wire_len Z Z p (-1)).
+Proof. exact sys_example2_ok. Qed.
+Print Assumptions C05_pn_decode_in_histories_nonvacuous.
 
 Import Coq.Strings.String. (* string literals below; placed here because String.length would shadow List.length above *)
 
@@ -420,3 +502,27 @@ Example C05_rfc9001_A5_chacha :
     = UOk 66 654360564 3 0 (hx "01").
 Proof. exact rfc9001_A5. Qed.
 Print Assumptions C05_rfc9001_A5_chacha.
+
+(** Header authentication on concrete ciphers (companion of C05_tamper_rejected, whose
+    ideal-integrity hypothesis is an assumption about the cipher): the RFC A.3 packet under the
+    Gallina AES-128-GCM and the A.5 packet under the Gallina ChaCha20-Poly1305 open, and with a
+    single bit flipped in the unprotected header, the protected first byte (key phase bit /
+    reserved bit / packet number length), the packet number, the ciphertext or the tag the
+    unpacker's open fails.  (C05_protect_nonvacuous only shows that the hypotheses are
+    jointly satisfiable, with an AEAD that ignores nonce and header.) *)
+Example C05_tamper_concrete :
+  a3_open server_initial_version1_packet = UOk 193 1 2 0 server_initial_version1_payload /\
+  a3_open (flip_bit server_initial_version1_packet 0 2) = UDecryptFailed /\
+  a3_open (flip_bit server_initial_version1_packet 0 0) = UDecryptFailed /\
+  a3_open (flip_bit server_initial_version1_packet 4 0) = UDecryptFailed /\
+  a3_open (flip_bit server_initial_version1_packet 8 7) = UDecryptFailed /\
+  a3_open (flip_bit server_initial_version1_packet 18 0) = UDecryptFailed /\
+  a3_open (flip_bit server_initial_version1_packet 40 3) = UDecryptFailed /\
+  a3_open (flip_bit server_initial_version1_packet 134 0) = UDecryptFailed /\
+  a5_unprotect a5_packet = UOk 66 654360564 3 0 (hx "01") /\
+  a5_unprotect (flip_bit a5_packet 0 2) = UDecryptFailed /\
+  a5_unprotect (flip_bit a5_packet 2 0) = UDecryptFailed /\
+  a5_unprotect (flip_bit a5_packet 4 5) = UDecryptFailed /\
+  a5_unprotect (flip_bit a5_packet 20 7) = UDecryptFailed.
+Proof. exact tamper_concrete. Qed.
+Print Assumptions C05_tamper_concrete.
